@@ -59,7 +59,7 @@ def gen_session(r, tier, force=None):
                 hscroll=int(r.random() < 0.8), keepright=int(r.random() < 0.2), hoff=r.choice([10, 10, 0, 3, 25]),
                 exact=int(r.random() < 0.15), hlines=hl, header=header,
                 pointer=r.choice(['', '', '>', '=>']), marker=r.choice(['', '', '*', '+']),
-                ellipsis=r.choice(['', '', '..', '~', '...']), prompt=r.choice(['', '', 'Q: ', '$ ']))
+                ellipsis=r.choice(['', '', '..', '~', '...']), prompt=r.choice(['', '', 'Q: ', '$ ']), hfirst=int(r.random() < 0.2))
     if lines and (force == 'fit' or r.random() < 0.35):
         # lines exactly as wide as the text area of THIS window (window - pointer - marker - 1), one less, one more
         tw = opts['cols'] - len(opts['pointer'] or '▌') - len(opts['marker'] or '┃') - 1
@@ -151,6 +151,8 @@ def session_args(o):
         a.append('--ellipsis=' + o['ellipsis'])
     if o['prompt']:
         a.append('--prompt=' + o['prompt'])
+    if o.get('hfirst'):
+        a.append('--header-first')
     return a
 
 
